@@ -125,3 +125,16 @@ Definition resolvepath_model (p : pstate) : string :=
 Definition resolvepath_src_agrees (src : list dstmt) : bool :=
   vocabulary_ok (map fst (resolvepath_preds (mkP false "" false false "" "" false))) (map fst (resolvepath_syms (mkP false "" false false "" "" false))) src
   && forallb (fun p => String.eqb (out_string (resolvepath_syms p) (run (fun q => str_case q (resolvepath_preds p) false) src)) (resolvepath_model p)) pstates.
+
+(* ---- guess / simple ResolvePackage ------------------------------------------------------------------ *)
+Definition pkgres_preds (m : list (string * string)) (p : string) : list (string * bool) := [
+  ("has(r,importPath)", match map_get m p with Some _ => true | None => false end);
+  ("true(strings.Contains(importPath,""/""))", contains_slash p)].
+
+Definition pkgres_syms (m : list (string * string)) (p : string) : list (string * string) := [
+  ("r[importPath]", match map_get m p with Some n => n | None => "?" end);
+  ("importPath", p);
+  ("importPath[strings.LastIndex(importPath, ""/"")+1:]", after_last_slash p)].
+
+Definition pkgres_vocabulary_ok (src : list dstmt) : bool :=
+  vocabulary_ok (map fst (pkgres_preds [] "")) (map fst (pkgres_syms [] "")) src.
